@@ -34,6 +34,7 @@ structure Drv where
   traceOn : Bool := true
   dead : Option String := none     -- a model fault: everything after it is reported as such
   hmounted : List Nat := []        -- volumes for which the harness holds a successful adfMount (g_mounted in adfh.c)
+  wprotect : Bool := false         -- write-protect tab of a native device: its driver forces the device read-only
   deriving Inhabited
 
 def faultStr (f : Fault) : String :=
@@ -108,8 +109,9 @@ def stepOp1 (d : Drv) (args : List String) : List String × Drv :=
       | _, _ => []
     runTop d (createHd (parts rest (n np))) fun rc w => [s!"= rc={rc}" ++ (if rc = 0 then devSummary w.cfg else "")]
   | ["closedev", _] => if !d.w.devOpen then (["= no-dev"], d) else runTop d closeDev fun _ _ => ["= ok"]
+  | ["wprotect", _, v] => (["= ok"], { d with wprotect := n v ≠ 0 })
   | ["opendev", _, ro] =>
-    runTop d (mountDev (n ro ≠ 0)) fun ok w => [if ok then "= ok" ++ devSummary w.cfg else "= fail"]
+    runTop d (mountDev (n ro ≠ 0 || (d.wprotect && d.w.cfg.native))) fun ok w => [if ok then "= ok" ++ devSummary w.cfg else "= fail"]
   | ["mount", _, p, ro] =>
     runTop d (if d.w.devOpen then mount (n p) (n ro ≠ 0) else pure false) fun ok w =>
       if !ok then ["= fail"] else
